@@ -18,6 +18,6 @@ done
 wait
 for j in $(seq 1 $n); do
   cat /tmp/vw/p$j/reeval.log
-  for d in /tmp/vw/p$j/seeded/*; do cp $d/meta.json /verif/seeded/$(basename $d)/meta.json; done
+  for d in $(cd /tmp/vw/p$j && git status --porcelain seeded | awk '{print $2}' | grep meta.json); do cp /tmp/vw/p$j/$d /verif/$d; done
   git worktree remove --force /tmp/vw/p$j
 done
